@@ -151,7 +151,6 @@ type cAct struct {
 type cInput struct {
 	Cap     int    `json:"cap"`
 	Actions []cAct `json:"actions"`
-	NoGuard bool   `json:"noguard,omitempty"` // do not keep the number of bugs with staged operations below the capacity
 	Stress  int    `json:"stress,omitempty"` // instead of a session: this many cache builds from scratch on a small repository
 }
 
@@ -287,6 +286,7 @@ type cSession struct {
 	tags    map[string]bool
 	skip    string
 	nscratch int
+	stop     bool // a resolved entity turned out to be locked for ever: the session ends there
 }
 
 func (s *cSession) fail(format string, a ...interface{}) {
@@ -600,6 +600,7 @@ func (s *cSession) ask(c *cache.RepoCache, order []entity.Id) *cViews {
 		if snap == nil {
 			v.Snaps = append(v.Snaps, cSnap{E: s.ent(id), Hung: true})
 			s.tags["resolved-handle-locked"] = true
+			s.stop = true
 			continue
 		}
 		cs := cSnap{E: s.ent(id), St: int(snap.Status), Title: c11Tokens(snap.Title), Labels: c11Labels(snap.Labels), Dirty: b.NeedCommit(),
@@ -629,7 +630,7 @@ func c11Snapshot(b *cache.BugCache) *bug.Snapshot {
 	select {
 	case sn := <-ch:
 		return sn
-	case <-time.After(1500 * time.Millisecond):
+	case <-time.After(500 * time.Millisecond):
 		return nil
 	}
 }
@@ -795,23 +796,6 @@ func (s *cSession) goDiff(ev *cEvent) {
 
 // ---- actions ----
 
-// dirtyBugs counts the bugs of user r, other than id, that have staged operations.
-func (s *cSession) dirtyBugs(r int, id entity.Id) int {
-	n := 0
-	for i := len(s.events) - 1; i >= 0; i-- {
-		ev := s.events[i]
-		if ev.Kind == "observe" && ev.R == r {
-			for _, sn := range ev.Live.Snaps {
-				if sn.Dirty && sn.E != s.ent(id) {
-					n++
-				}
-			}
-			break
-		}
-	}
-	return n
-}
-
 func (s *cSession) pick(r, e int) (entity.Id, bool) {
 	ids := s.localIds(r)
 	if len(ids) == 0 {
@@ -969,9 +953,7 @@ func (s *cSession) do(a cAct) {
 			s.push(ev)
 			s.tags["edit:"+a.K] = true
 		}
-		// Resolve evicts (and locks) the entity it has just loaded when every older loaded entity has
-		// staged operations: the number of bugs with staged operations is kept below the capacity
-		if (!a.Stage || (!s.in.NoGuard && s.dirtyBugs(r, id) >= s.in.Cap-1)) && b.NeedCommit() {
+		if !a.Stage && b.NeedCommit() {
 			s.commitBug(r, b)
 		} else if b.NeedCommit() {
 			s.tags["staged-edit"] = true
@@ -1156,6 +1138,9 @@ func runC11(in cInput) (*cSession, string) {
 		if s.skip != "" {
 			return s, s.skip
 		}
+		if s.stop {
+			break
+		}
 	}
 	return s, s.skip
 }
@@ -1292,7 +1277,7 @@ func (c11Driver) Run(raw json.RawMessage) Case {
 		if msg := runC11Stress(in.Stress); msg != "" {
 			return Case{Skip: "stress: " + msg}
 		}
-		return Case{Coq: "mkcase [] [] [] []", Tags: []string{"stress-build"}, Key: string(raw)}
+		return Case{Coq: "mkcase 2 [] [] [] []", Tags: []string{"stress-build"}, Key: string(raw)}
 	}
 	s, skip := runC11(in)
 	if s == nil || skip != "" {
@@ -1307,4 +1292,275 @@ func (c11Driver) Run(raw json.RawMessage) Case {
 	return Case{Coq: s.coqCase(), Obs: s.events, Tags: tags, NonTrivial: nontrivial, Key: string(raw)}
 }
 
-func (s *cSession) coqCase() string { return "mkcase [] [] [] []" }
+// ---- Coq rendering (K_C11.case) ----
+
+func c11N(n int) string    { return fmt.Sprintf("%d%%N", n) }
+func c11Ns(xs []int) string {
+	ys := make([]string, len(xs))
+	for i, x := range xs {
+		ys[i] = fmt.Sprint(x)
+	}
+	return "[" + strings.Join(ys, "; ") + "]%N"
+}
+func c11Users(xs []int) string {
+	ys := make([]int, len(xs))
+	for i, x := range xs {
+		ys[i] = x + 1
+	}
+	return c11Ns(ys)
+}
+func c11KV(kv [][2]int) string {
+	ys := make([]string, len(kv))
+	for i, p := range kv {
+		ys[i] = fmt.Sprintf("(%d%%N, %d%%N)", p[0], p[1])
+	}
+	return coqList(ys)
+}
+func c11Pairs(m [][2]int) string {
+	if m == nil {
+		return "[]"
+	}
+	return coqAmap(m)
+}
+
+// c11Code packs a text (word indices) base 16, first word most significant.
+func c11Code(ws []int) string {
+	c := 0
+	for _, w := range ws {
+		c = c*16 + (w + 1)
+	}
+	return c11N(c)
+}
+
+func (s *cSession) coqViews(v *cViews, or ranker) string {
+	var excs, ids, qs, meta, idmeta, idres, snaps []string
+	for _, x := range v.Exc {
+		excs = append(excs, fmt.Sprintf("mkexc %d %d%%N %d%%N %d%%N %d%%N %d%%N %d%%N %s %s %d %s %s %s", x.E, x.CL, x.EL, x.CT, x.ET, x.Au+1, x.St,
+			c11Ns(x.Labels), c11Ns(x.Title), x.NC, c11Users(x.Actors), c11Users(x.Parts), c11KV(x.Meta)))
+	}
+	for _, y := range v.IdExc {
+		ids = append(ids, fmt.Sprintf("mkiexc %d %d%%N %s", y.U, y.Name, c11KV(y.Meta)))
+	}
+	for _, q := range v.Queries {
+		if len(q) == 1 && q[0] == -1 {
+			qs = append(qs, "None")
+		} else {
+			qs = append(qs, "Some "+coqNats(q))
+		}
+	}
+	look := func(xs []int) []string {
+		var res []string
+		for _, x := range xs {
+			switch {
+			case x >= 0:
+				res = append(res, fmt.Sprintf("LFound %d", x))
+			case x == -1:
+				res = append(res, "LNone")
+			case x == -2:
+				res = append(res, "LMany")
+			default:
+				res = append(res, "LErr")
+			}
+		}
+		return res
+	}
+	meta, idmeta = look(v.Meta), look(v.IdMeta)
+	for _, z := range v.IdRes {
+		idres = append(idres, fmt.Sprintf("mkires %d %s %d%%N %s", z.U, coqBool(z.Err), z.Name, coqBool(z.Dirty)))
+	}
+	for _, n := range v.Snaps {
+		state := 0
+		if n.Err {
+			state = 1
+		}
+		if n.Hung {
+			state = 2
+		}
+		ops := make([]int, len(n.Ops))
+		for i, o := range n.Ops {
+			ops[i] = or.m[o]
+		}
+		var cms []string
+		for _, cm := range n.Comments {
+			cms = append(cms, fmt.Sprintf("(%d%%N, %s)", cm.Au+1, c11Ns(cm.Msg)))
+		}
+		snaps = append(snaps, fmt.Sprintf("mksnap %d %d%%N %s %d%%N %s %s %s %s %s %s", n.E, state, c11Ns(ops), n.St, c11Ns(n.Title), c11Ns(n.Labels),
+			coqList(cms), c11Users(n.Actors), c11Users(n.Parts), coqBool(n.Dirty)))
+	}
+	return fmt.Sprintf("(mkviews %s %s %s %s %s %s %s %s)", coqList(excs), coqList(ids), c11Ns(v.Labels), coqList(qs), coqList(meta), coqList(idmeta), coqList(idres), coqList(snaps))
+}
+
+func c11Status(st string) string {
+	switch st {
+	case "new":
+		return "MNew"
+	case "nothing":
+		return "MNothing"
+	case "updated":
+		return "MUpdated"
+	}
+	return "MInvalid"
+}
+
+func (s *cSession) coqCase() string {
+	var packIDs, opIDs []string
+	for _, c := range s.g.commits {
+		packIDs = append(packIDs, c.PackID)
+		opIDs = append(opIDs, c.Ops...)
+	}
+	for id, o := range s.ops {
+		opIDs = append(opIDs, id)
+		if o.Target != "" {
+			opIDs = append(opIDs, o.Target)
+		}
+	}
+	for _, ev := range s.events {
+		if ev.Op != "" {
+			opIDs = append(opIDs, ev.Op)
+		}
+		for _, v := range []*cViews{ev.Live, ev.Rebuilt} {
+			if v != nil {
+				for i := range v.Snaps {
+					opIDs = append(opIDs, v.Snaps[i].Ops...)
+				}
+			}
+		}
+	}
+	pr, or := rankOf(packIDs), rankOf(opIDs)
+	au := func(id string) int {
+		for u, x := range s.userID {
+			if string(x) == id {
+				return u + 1
+			}
+		}
+		return 100
+	}
+	opranks := func(xs []string) string {
+		ys := make([]int, len(xs))
+		for i, x := range xs {
+			ys[i] = or.m[x]
+		}
+		return c11Ns(ys)
+	}
+	var commits []string
+	for _, c := range s.g.commits {
+		commits = append(commits, fmt.Sprintf("{| c_parents := %s; c_pack := mkpack %d %d %s %d %d |}", coqNats(c.Parents), pr.m[c.PackID], au(c.Author), opranks(c.Ops), c.Edit, c.Create))
+	}
+	// operation table
+	var ids []string
+	for id := range s.ops {
+		ids = append(ids, id)
+	}
+	sort.Slice(ids, func(i, j int) bool { return or.m[ids[i]] < or.m[ids[j]] })
+	var optab []string
+	for _, id := range ids {
+		o, k := s.ops[id], or.m[id]
+		oid := fmt.Sprintf("(%d%%N, %d%%N)", k, k)
+		tgt := fmt.Sprintf("(%d%%N, %d%%N)", or.m[o.Target], or.m[o.Target])
+		a := c11N(o.Au + 1)
+		var op string
+		meta := "[]"
+		switch o.Kind {
+		case "create":
+			op = fmt.Sprintf("Snap.OCreate %s %s %s %s []", oid, a, c11Code(o.Title), c11Code(o.Msg))
+			meta = c11KV(o.KV)
+		case "comment":
+			op = fmt.Sprintf("Snap.OAddComment %s %s %s []", oid, a, c11Code(o.Msg))
+		case "editcomment":
+			op = fmt.Sprintf("Snap.OEditComment %s %s %s %s []", oid, a, tgt, c11Code(o.Msg))
+		case "title":
+			op = fmt.Sprintf("Snap.OSetTitle %s %s %s", oid, a, c11Code(o.Title))
+		case "status":
+			op = fmt.Sprintf("Snap.OSetStatus %s %s %s", oid, a, c11N(o.St))
+		case "label":
+			op = fmt.Sprintf("Snap.OLabelChange %s %s %s %s", oid, a, c11Ns(o.Added), c11Ns(o.Remvd))
+		case "meta":
+			op = fmt.Sprintf("Snap.OSetMetadata %s %s %s %s", oid, a, tgt, c11KV(o.KV))
+		}
+		optab = append(optab, fmt.Sprintf("(%d%%N, mkop (%s) %d%%N %s)", k, op, o.Time-1600000000, meta))
+	}
+	// rank of every bug id (sort:id)
+	var bugIDs []string
+	for id := range s.entOf {
+		bugIDs = append(bugIDs, id)
+	}
+	br := rankOf(bugIDs)
+	sort.Strings(bugIDs)
+	var idrank []string
+	for _, id := range bugIDs {
+		idrank = append(idrank, fmt.Sprintf("(%d, %d%%N)", s.entOf[id], br.m[id]))
+	}
+	// steps
+	var steps []string
+	for _, ev := range s.events {
+		out := "CDone"
+		if ev.Out != "done" {
+			out = "CFail"
+		}
+		pack := func() (int, int) {
+			if len(ev.NewIdx) > 0 {
+				c := s.g.commits[ev.NewIdx[0]]
+				return pr.m[c.PackID], au(c.Author)
+			}
+			return 0, 0
+		}
+		var h string
+		switch ev.Kind {
+		case "idnew":
+			h = fmt.Sprintf("HEv (VIdNew %d %d %d%%N)", ev.R, ev.E, ev.V)
+		case "idupd":
+			h = fmt.Sprintf("HEv (VIdUpd %d %d %d%%N)", ev.R, ev.E, ev.V)
+		case "new":
+			pid, a := pack()
+			ops := "[]%N"
+			if len(ev.NewIdx) > 0 {
+				ops = opranks(s.g.commits[ev.NewIdx[0]].Ops)
+			}
+			h = fmt.Sprintf("HEv (VNew %d %d%%N %d%%N %s)", ev.R, pid, a, ops)
+		case "resolve":
+			h = fmt.Sprintf("HEv (VResolve %d %d)", ev.R, ev.E)
+		case "edit":
+			if ev.Out == "done" {
+				h = fmt.Sprintf("HEv (VStage %d %d %d%%N)", ev.R, ev.E, or.m[ev.Op])
+			} else {
+				h = fmt.Sprintf("HNop %d", ev.R)
+			}
+		case "commit":
+			pid, a := pack()
+			h = fmt.Sprintf("HEv (VCommit %d %d %d%%N %d%%N)", ev.R, ev.E, pid, a)
+		case "push":
+			h = fmt.Sprintf("HEv (VPush %d)", ev.R)
+		case "pull":
+			if ev.Out != "done" {
+				h = fmt.Sprintf("HNop %d", ev.R)
+				break
+			}
+			var ims, bms, ist, bst []string
+			for _, m := range ev.Merges {
+				if m.Ident {
+					ims = append(ims, fmt.Sprint(m.E))
+					ist = append(ist, c11Status(m.Status))
+				} else {
+					mid, mau := 0, 0
+					if m.NewIdx > 0 {
+						c := s.g.commits[m.NewIdx]
+						mid, mau = pr.m[c.PackID], au(c.Author)
+					}
+					bms = append(bms, fmt.Sprintf("(%d, %d%%N, %d%%N)", m.E, mid, mau))
+					bst = append(bst, c11Status(m.Status))
+				}
+			}
+			h = fmt.Sprintf("HEv (VPull %d %s %s)", ev.R, coqList(ims), coqList(bms))
+			out = fmt.Sprintf("CPulled %s %s", coqList(ist), coqList(bst))
+		case "remove":
+			h = fmt.Sprintf("HEv (VRemove %d %d)", ev.R, ev.E)
+		case "reopen":
+			h = fmt.Sprintf("HEv (VReopen %d %d)", ev.R, ev.Wipe)
+		case "observe":
+			h = fmt.Sprintf("HObserve %d %s %s %s", ev.R, coqNats(ev.Order), s.coqViews(ev.Live, or), s.coqViews(ev.Rebuilt, or))
+		}
+		steps = append(steps, fmt.Sprintf("(%s, mkgobs (%s) %s %s %s %d%%N %d%%N %d %s %s %s)", h, out, c11Pairs(ev.Loc), c11Pairs(ev.Trk), c11Pairs(ev.Rem),
+			ev.Clk, ev.CClk, ev.NSt, c11Pairs(ev.ILoc), c11Pairs(ev.ITrk), c11Pairs(ev.IRem)))
+	}
+	return fmt.Sprintf("mkcase %d %s %s %s %s", s.in.Cap, coqList(steps), coqList(commits), coqList(optab), coqList(idrank))
+}
